@@ -31,7 +31,7 @@ func Optimize(node *Node, config *conf.Config) error {
 			}
 		}
 	}
-	Walk(node, &inRange{})
+	Walk(node, &inRange{typed: config != nil})
 	Walk(node, &constRange{})
 	return nil
 }
